@@ -1,7 +1,7 @@
 (* MpLoadProofs.v — the typed load of value trees: the specification's evaluation of the request program
    yields the answers load_tr consumes, save-then-load is the identity, transport to the scope model. *)
 From BS Require Import Base MpSpec MpModel MpLemmas MpReader MpTyped MpSaveModel MpSave
-  MpScopeSpec MpScopeModel MpScopeLemmas MpScopeTyped MpScopeProofs MpScopeRefine MpLoadModel.
+  MpScopeSpec MpScopeModel MpScopeLemmas MpScopeTyped MpScopeProofs MpScopeRefine MpLoadModel MpLoadBytes.
 From Coq Require Import ZifyBool ZifyN ZifyNat.
 Local Open Scope N_scope.
 Ltac Zify.zify_post_hook ::= Z.div_mod_to_equations.
@@ -1421,12 +1421,12 @@ Section Transport.
 
   Theorem load_save_class_on_model kvs ms i b :
     has_shape (TObj kvs) (SClass ms) = true -> clean_maps (SClass ms) = true -> wf_tv (TObj kvs) -> doc_ok (abs (TObj kvs)) = true ->
-    save (TObj kvs) = Some b -> bytes b ->
+    wf_bytes (TObj kvs) = true -> save (TObj kvs) = Some b ->
     exists toks, load_tr (SClass ms) i (abs (TObj kvs)) = (toks, LOk (TObj kvs)) /\
       run_obj_root narrow widen o b (class_prog ms i (map absp kvs)) = Done toks [] false /\
       load_obj narrow widen o b (class_prog ms i (map absp kvs)) = MpScopeModel.LOk toks [].
   Proof.
-    intros Hs Hc Hw Hd Hsv Hb. destruct (load_save_spec narrow widen o _ _ i Hs Hc Hw Hd) as [toks [r [E Ho]]].
+    intros Hs Hc Hw Hd Hwb Hsv. pose proof (save_bytes _ b Hw Hwb Hsv) as Hb. destruct (load_save_spec narrow widen o _ _ i Hs Hc Hw Hd) as [toks [r [E Ho]]].
     rewrite (out_not_opt (SClass ms) _ _ I Hs Ho) in E.
     exists toks. split; [exact E|]. rewrite abs_obj in *.
     exact (load_class_on_model b (map absp kvs) [] ms i toks _ Hb (save_decodes _ b Hw Hsv) Hd E I).
@@ -1434,12 +1434,12 @@ Section Transport.
 
   Theorem load_save_map_on_model kvs ks e i b :
     has_shape (TObj kvs) (SMap MClean ks e) = true -> clean_maps e = true -> wf_tv (TObj kvs) -> doc_ok (abs (TObj kvs)) = true ->
-    save (TObj kvs) = Some b -> bytes b ->
+    wf_bytes (TObj kvs) = true -> save (TObj kvs) = Some b ->
     exists toks, load_tr (SMap MClean ks e) i (abs (TObj kvs)) = (toks, LOk (TObj kvs)) /\
       run_obj_root narrow widen o b (map_prog MClean ks e i (map absp kvs)) = Done toks [] false /\
       load_obj narrow widen o b (map_prog MClean ks e i (map absp kvs)) = MpScopeModel.LOk toks [].
   Proof.
-    intros Hs Hc Hw Hd Hsv Hb. destruct (load_save_spec narrow widen o _ _ i Hs Hc Hw Hd) as [toks [r [E Ho]]].
+    intros Hs Hc Hw Hd Hwb Hsv. pose proof (save_bytes _ b Hw Hwb Hsv) as Hb. destruct (load_save_spec narrow widen o _ _ i Hs Hc Hw Hd) as [toks [r [E Ho]]].
     rewrite (out_not_opt (SMap MClean ks e) _ _ I Hs Ho) in E.
     exists toks. split; [exact E|]. rewrite abs_obj in *.
     exact (load_map_on_model b (map absp kvs) [] MClean ks e i toks _ Hb (save_decodes _ b Hw Hsv) Hd E I).
@@ -1447,12 +1447,12 @@ Section Transport.
 
   Theorem load_save_vec_on_model l e i b :
     has_shape (TArr l) (SVec e) = true -> clean_maps e = true -> wf_tv (TArr l) -> doc_ok (abs (TArr l)) = true ->
-    save (TArr l) = Some b -> bytes b ->
+    wf_bytes (TArr l) = true -> save (TArr l) = Some b ->
     exists toks, load_tr (SVec e) i (abs (TArr l)) = (toks, LOk (TArr l)) /\
       run_arr_root narrow widen o b (vec_prog e i (map abs l)) = Done toks [] false /\
       load_arr narrow widen o b (vec_prog e i (map abs l)) = MpScopeModel.LOk toks [].
   Proof.
-    intros Hs Hc Hw Hd Hsv Hb. destruct (load_save_spec narrow widen o _ _ i Hs Hc Hw Hd) as [toks [r [E Ho]]].
+    intros Hs Hc Hw Hd Hwb Hsv. pose proof (save_bytes _ b Hw Hwb Hsv) as Hb. destruct (load_save_spec narrow widen o _ _ i Hs Hc Hw Hd) as [toks [r [E Ho]]].
     rewrite (out_not_opt (SVec e) _ _ I Hs Ho) in E.
     exists toks. split; [exact E|].
     exact (load_vec_on_model b (map abs l) [] e i toks _ Hb (save_decodes _ b Hw Hsv) Hd E I).
